@@ -144,7 +144,7 @@ Fixpoint check_row_addrs_loop (last first_frag : N) (rest : list N) (sorted cont
   match rest with
   | [] => Ok (sorted, contiguous)
   | a :: more =>
-    (* contiguous &= last_offset.checked_add(1) == Some(*addr)   (repo commit 33efb4f; before it
+    (* contiguous &= (last_offset.checked_add(1) == Some of addr)   (repo commit 33efb4f; before it
        `last_offset + 1` overflowed when last_offset was the tombstone u64::MAX).
        The function cannot fail any more; the outcome type is kept so that callers read the same. *)
     check_row_addrs_loop a first_frag more (sorted && (last <? a))
